@@ -102,11 +102,7 @@ def write_graph(molecule, smiles_format=False, default_element='*'):
 
     while to_visit:
         current = to_visit.pop()
-        if current in branches:
-            branch_depth += 1
-            smiles += '('
-            branches.remove(current)
-
+        edge_symbol = ''
         if current in predecessors:
             # It's not the first atom we're visiting, so we want to see if the
             # edge we last crossed to get here is interesting.
@@ -115,7 +111,19 @@ def write_graph(molecule, smiles_format=False, default_element='*'):
             previous = previous[0]
             if _write_edge_symbol(molecule, previous, current):
                 order = molecule.edges[previous, current].get('order', 1)
-                smiles += order_to_symbol[order]
+                edge_symbol = order_to_symbol[order]
+
+        if current in branches:
+            branch_depth += 1
+            # in CGsmiles the bond order symbol is placed before the branch
+            # and in SMILES it is the first symbol within the branch
+            if smiles_format:
+                smiles += '(' + edge_symbol
+            else:
+                smiles += edge_symbol + '('
+            branches.remove(current)
+        else:
+            smiles += edge_symbol
 
         if smiles_format:
             smiles += format_atom(molecule, current, default_element)
